@@ -914,6 +914,40 @@ class FnTrans:
     # -------------------------------------------------------------- rmw loop
     loop_only = False
     loop_index = 0
+    _const_cache = None
+
+    def const_local(self, vid):
+        if self._const_cache is None:
+            self._const_cache = {}
+
+            def walk(n):
+                if n.get("kind") == "VarDecl" and "id" in n:
+                    self._const_cache[n["id"]] = n
+                for c in n.get("inner", []):
+                    walk(c)
+            walk(self.decl)
+        d = self._const_cache.get(vid)
+        if d is None:
+            return None
+        q = d.get("type", {}).get("qualType", "")
+        if not q.startswith("const "):
+            return None
+        init = [c for c in d.get("inner", []) if "Attr" not in c.get("kind", "")]
+        if not init:
+            return None
+        lets = []
+        try:
+            saved = self.loop_only
+            self.loop_only = False      # the initialiser must be closed: no free variables
+            try:
+                v = self.E(init[0], Env(), lets)
+            finally:
+                self.loop_only = saved
+        except Unsupported:
+            return None
+        if lets or cval(v) is None:
+            return None
+        return v
 
     def goto_is_backward(self, g):
         """does this goto jump to a label that precedes it in the function text (a retry)?"""
@@ -1259,6 +1293,10 @@ class FnTrans:
                 return self.extra(("global", nm), og[nm], "oracle", cname=nm)
             if self.loop_only and n["referencedDecl"].get("kind") in ("VarDecl", "ParmVarDecl"):
                 self.names.setdefault(vid, nm)
+                # a `const` local initialised before the loop by a constant expression is inlined, not abstracted
+                cv = self.const_local(vid)
+                if cv is not None:
+                    return cv
                 return self.extra(("free", vid), nm, "free")
             self.err(n, "reference to non-local variable %s" % nm)
         if v is None:
